@@ -670,6 +670,18 @@ inductive Ctl where
   | next | ret (v : PV) | cont | brk
 deriving Repr, Inhabited
 
+/-- an iterable whose producer fails after the listed items (`__raise_after__`): what a consumer that stops early never
+gets to see.  This is how *demand* is observable in the list semantics: a loop that pulls one item too many fails. -/
+def iterLazy : PV → Except Err (List PV × Option Err)
+  | .dict kvs =>
+    match PV.lookup (.str "__iter__") kvs, PV.lookup (.str "__raise_after__") kvs with
+    | some (.list xs), some (.str tag) => .ok (xs, some (.user tag))
+    | _, _ => (iterOf (.dict kvs)).map (fun xs => (xs, Option.none))
+  | v => (iterOf v).map (fun xs => (xs, Option.none))
+
+@[simp] theorem iterLazy_list (xs : List PV) : iterLazy (.list xs) = .ok (xs, Option.none) := rfl
+@[simp] theorem iterLazy_tuple (xs : List PV) : iterLazy (.tuple xs) = .ok (xs, Option.none) := rfl
+
 def loopFor (body : St → Except Err (Ctl × St)) (bind : PV → Env → Except Err Env) :
     List PV → St → Except Err (Ctl × St)
   | [], st => .ok (.next, st)
@@ -679,6 +691,19 @@ def loopFor (body : St → Except Err (Ctl × St)) (bind : PV → Env → Except
     match c with
     | .next => loopFor body bind vs st'
     | .cont => loopFor body bind vs st'
+    | .brk => .ok (.next, st')
+    | .ret r => .ok (.ret r, st')
+
+/-- the same loop over an iterable that fails (with `tl`) when asked for an item beyond the listed ones -/
+def loopForT (tl : Err) (body : St → Except Err (Ctl × St)) (bind : PV → Env → Except Err Env) :
+    List PV → St → Except Err (Ctl × St)
+  | [], _ => .error tl
+  | v :: vs, st => do
+    let env' ← bind v st.env
+    let (c, st') ← body { st with env := env' }
+    match c with
+    | .next => loopForT tl body bind vs st'
+    | .cont => loopForT tl body bind vs st'
     | .brk => .ok (.next, st')
     | .ret r => .ok (.ret r, st')
 
@@ -734,11 +759,15 @@ def exec (ext : Ext) : S → St → Except Err (Ctl × St)
     let xs ← iterOf (← evalE ext st.env e)
     .ok (.next, { st with out := st.out ++ xs })
   | .forIn x it body, st => do
-    let xs ← iterOf (← evalE ext st.env it)
-    loopFor (exec ext body) (bind1 x) xs st
+    let xs ← iterLazy (← evalE ext st.env it)
+    match xs.2 with
+    | Option.none => loopFor (exec ext body) (bind1 x) xs.1 st
+    | some tl => loopForT tl (exec ext body) (bind1 x) xs.1 st
   | .forIn2 x y it body, st => do
-    let xs ← iterOf (← evalE ext st.env it)
-    loopFor (exec ext body) (bind2 x y) xs st
+    let xs ← iterLazy (← evalE ext st.env it)
+    match xs.2 with
+    | Option.none => loopFor (exec ext body) (bind2 x y) xs.1 st
+    | some tl => loopForT tl (exec ext body) (bind2 x y) xs.1 st
   | .continue_, st => .ok (.cont, st)
   | .break_, st => .ok (.brk, st)
   | .assert_ e, st => do
